@@ -115,14 +115,16 @@ struct Machine {
         case CREATE: {
             int i = o.b % NSLOTS; release(i); std::vector<uint8_t> rnd; fresh_random(rnd); if (o.c & 1) rnd[18] |= 0xC0;
             k.rand_bytes = rnd; k.rand_pos = 0; k.rand_calls.clear(); k.rand_total = 0; k.time_calls = 0;
-            uint64_t t = model::EPOCH + (uint64_t)(o.c) * 7 * model::STEP / 2 + o.a * 1000; if ((o.c & 7) == 7) t = (o.c & 8) ? UINT64_MAX : 12345; k.clock = t;
+            uint64_t t = model::EPOCH + (uint64_t)(o.c) * 7 * model::STEP / 2 + o.a * 1000; if ((o.c & 7) == 7) t = (o.c & 8) ? UINT64_MAX : 12345; else if ((o.c & 15) == 11) t = model::EPOCH + (1024 + (uint64_t)o.a * 5) * model::STEP + o.b; /* beyond the 1024-month range */ k.clock = t;
             unsigned f = (o.a & 7u); if (o.a & 0x30) f &= mask;            // model-guided: three times out of four ask only for enabled features
             f |= ((o.a & 8u) ? 0xFFFFFFE0u : 0u);
             if (wr.enabled) { wr.malloc_calls = wr.time_calls = wr.free_calls = 0; wr.window = true; }
             arm_now(); polyseed_data* s = nullptr; int st = (int)polyseed_create(f, &s); k.disarm(); if (wr.enabled) wr.window = false;
             bool supported = ((f & 7u) & ~mask) == 0;
             if (st == 0) { ptr[i] = s; model::Seed m; memcpy(m.secret.data(), rnd.data(), 19); m.secret[18] &= 0x3F; m.features = f & 7u;
-                if (opt & deps::OPT_TIME) m.birthday = model::birthday_index(t); else { unsigned b = model::birthday_index((uint64_t)time(nullptr)); m.birthday = b; lib::Image img = lib::store(s); unsigned v = img[8] | (img[9] << 8); if ((v & 1023u) + 1 == b || (v & 1023u) == b + 1) m.birthday = v & 1023u; }
+                bool beyond = t != UINT64_MAX && t >= model::EPOCH + 1024 * model::STEP;
+                if ((opt & deps::OPT_TIME) && beyond) { lib::Image img = lib::store(s); m.birthday = (img[8] | (img[9] << 8)) & 1023u; /* no property fixes the month beyond the range: adopt it, everything else is still compared */ }
+                else if (opt & deps::OPT_TIME) m.birthday = model::birthday_index(t); else { unsigned b = model::birthday_index((uint64_t)time(nullptr)); m.birthday = b; lib::Image img = lib::store(s); unsigned v = img[8] | (img[9] << 8); if ((v & 1023u) + 1 == b || (v & 1023u) == b + 1) m.birthday = v & 1023u; }
                 slot[i] = m; }
             if (fl.check_model) {
                 int expect = !supported ? model::UNSUPPORTED : observed_fail() ? model::MEMORY : model::OK;
